@@ -202,6 +202,160 @@ func runC01(c *core.Ctx) {
 
 			// ---- D: key-set alterations -------------------------------------
 			e.keySet(&caseNo, foreign)
+
+			// ---- E: one authentic object verified twice with other parameters;
+			// ---- F: files with a second, differently spelled copy of a member ----
+			e.reuseWithParameters(&caseNo)
+			e.duplicateMembers(&caseNo)
+		}
+	}
+}
+
+// reuseWithParameters: what is enforced is the signed layout with the parameters of THIS call,
+// also when the same metadata object has been verified before (the inspection's marker name
+// carries the parameter value).
+func (e *c01Env) reuseWithParameters(caseNo *int) {
+	c := e.c
+	*caseNo++
+	id := fmt.Sprintf("reuse-with-parameters/%s", e.tag())
+	if !c.Mine(*caseNo) || !c.Want(id) {
+		return
+	}
+	saved := e.chain.Layout
+	defer func() { e.chain.Layout = saved }()
+	b, _ := json.Marshal(saved)
+	var l intoto.Layout
+	json.Unmarshal(b, &l)
+	l.Inspect[0].Run = []string{e.chain.Helper, "touch", filepath.Join(e.chain.MarkerDir, "check-{MARK}")}
+	l.Steps[1].ExpectedCommand = []string{"tar", "cf", "{MARK}"}
+	e.chain.Layout = l
+	signer := e.keys[0]
+	path, _, err := e.chain.WriteLayout("reuse.layout", signer)
+	if err != nil {
+		return
+	}
+	md, err := intoto.LoadMetadata(path)
+	if err != nil {
+		return
+	}
+	c.Begin(id)
+	for i, mark := range []string{"first", "second", "first", "third"} {
+		e.chain.ClearMarkers()
+		a := VerifyArgs{Layout: md, Keys: gen.KeyMap(signer), LinkDir: e.chain.LinkDir, Cwd: e.chain.FinalDir, Params: map[string]string{"MARK": mark}}
+		if e.runDir {
+			a.RunDir, a.Cwd = gen.RunDirName, e.chain.Root
+		}
+		obs := Verify(a)
+		c.Eval(1)
+		markers := e.chain.Markers()
+		detail := map[string]any{"wrapper_entry": e.tag(), "call": i + 1, "parameter": mark, "markers": markers, "error": errStr(obs.Err)}
+		reportTrace(c, id, obs, detail)
+		c.Class("reuse-with-parameters", e.tag(), i)
+		switch {
+		case !obs.Accepted():
+			c.Violation(fmt.Sprintf("authentic layout rejected when the same metadata object is verified again (call %d)", i+1), id, detail)
+		case len(markers) != 1 || markers[0] != "check-"+mark:
+			c.Violation(fmt.Sprintf("call %d on a metadata object that was verified before did not enforce the signed layout with this call's parameters (inspection command of another call was run)", i+1), id, detail)
+		default:
+			c.Obs("authentic_accepted", 1)
+			continue
+		}
+		break
+	}
+	c.End(id)
+}
+
+// duplicateMembers: a file that carries a second copy of a member under another spelling of its
+// name (payload / Payload, signed / Signed ...), one copy being the signed content and the other a
+// forged one. Whatever the loader makes of such a file: the content that is enforced must be the
+// content whose signature was checked - the forged layout's inspection must never run.
+func (e *c01Env) duplicateMembers(caseNo *int) {
+	c := e.c
+	saved := e.chain.Layout
+	defer func() { e.chain.Layout = saved }()
+	signer := e.keys[1]
+	path, _, err := e.chain.WriteLayout("dup.layout", signer)
+	if err != nil {
+		return
+	}
+	raw, _ := os.ReadFile(path)
+	var doc map[string]json.RawMessage
+	if json.Unmarshal(raw, &doc) != nil {
+		return
+	}
+	// the forged content: the same layout whose inspection leaves the marker EVIL
+	b, _ := json.Marshal(saved)
+	var forged intoto.Layout
+	json.Unmarshal(b, &forged)
+	forged.Inspect[0].Run = []string{e.chain.Helper, "touch", filepath.Join(e.chain.MarkerDir, "EVIL")}
+	fm, err := gen.NewMeta(forged, e.dsse)
+	if err != nil {
+		return
+	}
+	fp := filepath.Join(e.chain.Root, "forged-unsigned.layout")
+	fm.Dump(fp)
+	fraw, _ := os.ReadFile(fp)
+	var fdoc map[string]json.RawMessage
+	if json.Unmarshal(fraw, &fdoc) != nil {
+		return
+	}
+	member := "signed"
+	if e.dsse {
+		member = "payload"
+	}
+	spellings := []string{strings.ToUpper(member[:1]) + member[1:], strings.ToUpper(member), member}
+	for _, sp := range spellings {
+		for _, forgedFirst := range []bool{true, false} {
+			for _, forgedExact := range []bool{true, false} {
+				if sp == member && !forgedExact {
+					continue // both copies under the exact name: one variant is enough
+				}
+				*caseNo++
+				id := fmt.Sprintf("duplicate-member/%s/%s/forged-first=%v/forged-under-exact-name=%v", e.tag(), sp, forgedFirst, forgedExact)
+				if !c.Mine(*caseNo) || !c.Want(id) {
+					continue
+				}
+				exactName, otherName := member, sp
+				fName, gName := exactName, otherName // forged, genuine
+				if !forgedExact {
+					fName, gName = otherName, exactName
+				}
+				fPart := fmt.Sprintf("%q:%s", fName, fdoc[member])
+				gPart := fmt.Sprintf("%q:%s", gName, doc[member])
+				parts := []string{fPart, gPart}
+				if !forgedFirst {
+					parts = []string{gPart, fPart}
+				}
+				for k, v := range doc {
+					if k != member {
+						parts = append(parts, fmt.Sprintf("%q:%s", k, v))
+					}
+				}
+				file := "{" + strings.Join(parts, ",") + "}"
+				ap := filepath.Join(e.chain.Root, "dupmember.layout")
+				os.WriteFile(ap, []byte(file), 0644)
+				c.Begin(id)
+				md, err := intoto.LoadMetadata(ap)
+				if err != nil {
+					c.Obs("altered_refused_by_loader", 1)
+					c.Eval(1)
+					c.End(id)
+					continue
+				}
+				obs := e.verify(md, gen.KeyMap(signer))
+				c.Eval(1)
+				markers := e.chain.Markers()
+				detail := map[string]any{"wrapper_entry": e.tag(), "file": file, "markers": markers, "error": errStr(obs.Err)}
+				reportTrace(c, id, obs, detail)
+				c.Class("duplicate-member", e.tag(), sp, forgedFirst, forgedExact)
+				c.Obs("not_authentic_cases", 1)
+				if contains(markers, "EVIL") {
+					c.Violation("forged copy of the signed part (second member under another spelling of the name) was enforced: its inspection command ran", id, detail)
+				} else {
+					c.Obs("not_authentic_rejected", 1)
+				}
+				c.End(id)
+			}
 		}
 	}
 }
@@ -662,7 +816,7 @@ func init() {
 	core.Register(&core.Property{
 		ID:    "C01",
 		Level: "exploration",
-		Rule: "for both wrappers x both entry points (the caller's step name alternating between empty and non-empty): (A) all 16x16 (signer subset, verifier subset) pairs over 4 keys of mixed type (Ed25519, ECDSA P-256, RSA-2048, ECDSA P-384) + nil map; (B) every single-point alteration (edit/replace/delete/insert/reorder at every JSON node; for every string also the alterations a normalising comparison would miss: LF->CRLF, LF->CR, leading/trailing blank, trailing newline, letter case) of the signed layout in the dumped file, reloaded with LoadMetadata, and in-memory alterations of Metablock.Signed; (C) alterations of the signature list (drop, swap ids, duplicate, replay of an older version, corrupt first/middle/last character, truncate, empty, case variants, copied signatures, several entries under one key id: corrupt + short junk, old-version + short junk, two corrupt, corrupt then valid) under 3 verifier sets; (D) alterations of the supplied key set (non-signer added, right id with foreign material, wrong type, empty, zero key). " +
+		Rule: "for both wrappers x both entry points (the caller's step name alternating between empty and non-empty): (A) all 16x16 (signer subset, verifier subset) pairs over 4 keys of mixed type (Ed25519, ECDSA P-256, RSA-2048, ECDSA P-384) + nil map; (B) every single-point alteration (edit/replace/delete/insert/reorder at every JSON node; for every string also the alterations a normalising comparison would miss: LF->CRLF, LF->CR, leading/trailing blank, trailing newline, letter case) of the signed layout in the dumped file, reloaded with LoadMetadata, and in-memory alterations of Metablock.Signed; (C) alterations of the signature list (drop, swap ids, duplicate, replay of an older version, corrupt first/middle/last character, truncate, empty, case variants, copied signatures, several entries under one key id: corrupt + short junk, old-version + short junk, two corrupt, corrupt then valid) under 3 verifier sets; (D) alterations of the supplied key set (non-signer added, right id with foreign material, wrong type, empty, zero key); (E) one authentic metadata object verified four times with different parameter values (the inspection's marker name carries the value of the call); (F) files carrying a forged second copy of the signed part under another spelling of the member name (payload/Payload/PAYLOAD, signed/Signed/SIGNED, either order): the forged copy's inspection must never run. " +
 			"Oracle = ground truth by construction (which key signed which content version) + marker files of the inspection command + hook-event trace automaton. non-trivial = the call reached verify_entry; distinct = (wrapper, entry point, case family, |S|, |V|, relation / alteration kind + JSON path class)",
 		Assumptions: []string{
 			"acceptance of authentic controls is required only as an observation floor (the property is an 'only if'); a rejected control is counted as inconclusive",
